@@ -42,6 +42,7 @@ let str_of_part = function
 let () =
   let cur_id = ref "" and cur_n = ref 0 and cur_w = ref false in
   let ds = ref [] and qs = ref [] and fs = ref [] and kind = ref "C" and cur_uf = ref false in
+  let bound = ref 0 and wits = ref [] in
   let amap = ref [] and hard = ref [] and cls = ref [] and grps = ref [] and curkey = ref (-1) and form = ref FTop in
   let parse_lits r = List.map (fun t -> let i = int_of_string t in (i > 0, nat_of_int (abs i - 1))) r in
   let flush_group () = if !curkey >= 0 then begin grps := (nat_of_int !curkey, List.rev !cls) :: !grps; cls := []; curkey := -1 end in
@@ -55,6 +56,8 @@ let () =
            kind := "C"; cur_id := id; cur_n := int_of_string n; cur_w := (w = "1"); ds := []; qs := []
        | "G" :: id :: n :: w :: uf :: _ ->
            kind := "G"; cur_id := id; cur_n := int_of_string n; cur_w := (w = "1"); cur_uf := (uf = "1"); ds := []; fs := []
+       | "I" :: id :: n :: b :: _ -> kind := "I"; cur_id := id; cur_n := int_of_string n; bound := int_of_string b; ds := []; qs := []; wits := []
+       | "X" :: qi :: r -> wits := (nat_of_int (int_of_string qi), List.map (fun t -> nat_of_int (int_of_string t)) r) :: !wits
        | "K" :: id :: n :: _ -> kind := "K"; cur_id := id; cur_n := int_of_string n; cls := []; amap := []
        | "M" :: id :: n :: _ -> kind := "M"; cur_id := id; cur_n := int_of_string n; cls := []; hard := []; grps := []; curkey := -1
        | "A" :: r -> amap := List.map (fun t -> nat_of_int (int_of_string t)) r
@@ -66,7 +69,15 @@ let () =
        | "D" :: r -> ds := parse_cond r :: !ds
        | "Q" :: r -> qs := parse_cond r :: !qs
        | "E" :: _ ->
-           if !kind = "K" then
+           if !kind = "I" then begin
+             let (((mins, selff), qrows), wres) = run_cinf (nat_of_int !cur_n) (List.rev !ds) (List.rev !qs) (List.rev !wits) (nat_of_int !bound) in
+             let fam f = str_of_fam f in
+             let mins_s = String.concat " " (List.map (fun (v, f) -> fam v ^ ";" ^ fam f) mins) in
+             let q_s = String.concat " " (List.map (fun ((v, f), s) -> fam v ^ ";" ^ fam f ^ ";" ^
+                          (match s with None -> "-" | Some e -> String.concat "," (List.map (fun x -> string_of_int (int_of_nat x)) e))) qrows) in
+             let w_s = String.concat "" (List.map (fun b -> if b then "1" else "0") wres) in
+             Printf.printf "%s|%s|%s|%s|%s\n" !cur_id mins_s (if selff then "1" else "0") q_s w_s
+           end else if !kind = "K" then
              Printf.printf "%s|%s\n" !cur_id (if run_faithful (nat_of_int !cur_n) !amap !form (List.rev !cls) then "1" else "0")
            else if !kind = "M" then begin
              flush_group ();
